@@ -73,6 +73,14 @@ def eval_gas(case):
         if not spread <= REL_IDENT * 10:
             viol.append(V("gas/rho-Bg-pressure-independent", f"rho_g*B_g varies by {spread:.3g} (relative) over "
                           f"pressure: {rb.min()!r}..{rb.max()!r}", case=case, observed=float(spread), tol=REL_IDENT * 10))
+        for t_sc, p_sc in ((68.0, 14.696), (60.0, 15.025)):  # other standard-condition bases passed explicitly
+            prod = [gas.density_DAK(T, q, tpc, ppc, g) * gas.b_factor_DAK(T, q, tpc, ppc, t_sc, p_sc) for q in ps[::4]]
+            want_sc = M * p_sc / (R * (t_sc + 459.67) * 5.615)
+            if not np.all(np.abs(np.array(prod) / want_sc - 1) <= REL_CONST):
+                viol.append(V("gas/rho-Bg-standard-mass/other-base", f"with standard conditions ({t_sc} F, {p_sc} psia) "
+                              f"rho_g*B_g = {prod[0]!r}, standard-condition mass content {want_sc!r}", case=case,
+                              observed=float(prod[0]), expected=want_sc, tol=REL_CONST))
+                break
         ref = M * 14.7 / (R * (60 + 459.67) * 5.615)
         if not abs(rb.mean() / ref - 1) <= REL_CONST:
             viol.append(V("gas/rho-Bg-standard-mass", f"rho_g*B_g={rb.mean()!r}, standard-condition mass content "
